@@ -264,7 +264,12 @@ def covering_rows(rng, nbits=9, strength=2, tries=40):
 
 
 def opt_on(o):
-    return [k for k in SITE_KEYS + ROW_KEYS if o.get(k)]
+    extra = []
+    if o.get("cred") and o.get("grp", "several") != "several":
+        extra.append("grp=" + o["grp"])
+    if o.get("user") and o.get("gmap", "allow") != "allow":
+        extra.append("gmap=" + o["gmap"])
+    return [k for k in SITE_KEYS + ROW_KEYS if o.get(k) is True] + extra
 
 
 def par(*thunks):
